@@ -15,7 +15,13 @@ type multiFlag []string
 func (m *multiFlag) String() string     { return strings.Join(*m, ",") }
 func (m *multiFlag) Set(s string) error { *m = append(*m, s); return nil }
 
+func newFlagSet(name string) *flag.FlagSet { return flag.NewFlagSet(name, flag.ExitOnError) }
+
 func main() {
+	if len(os.Args) > 1 && os.Args[1] == "check" {
+		checkMain(os.Args[2:])
+		return
+	}
 	var funcs multiFlag
 	repo := flag.String("repo", "/repo", "repository root")
 	prop := flag.String("property", "", "select contracts tagged with this property")
@@ -59,7 +65,7 @@ func main() {
 		if *prop != "" && !contains(c.props, *prop) {
 			continue
 		}
-		if c.mode == "assumed" {
+		if c.mode == "assumed" || contains(c.props, "CANARY") {
 			continue
 		}
 		units = append(units, eng.newUnit(c))
@@ -90,6 +96,14 @@ func main() {
 		}
 		for _, o := range u.obligs {
 			ur.Obligs = append(ur.Obligs, obligResult{Name: o.name, Class: o.class, Result: o.result, Solver: o.solver, TimeS: o.timeS, Text: o.text, Pos: o.pos.String(), Output: o.output})
+			if o.expectFail {
+				res.Probes++
+				if o.result != "reachable" {
+					res.Vacuous++
+					fmt.Printf("VACUOUS  %s: `false` is provable here (contradictory contract or engine defect)\n", o.name)
+				}
+				continue
+			}
 			res.Total++
 			if o.result == "proved" {
 				res.Proved++
@@ -104,12 +118,12 @@ func main() {
 		res.Units = append(res.Units, ur)
 	}
 	sort.Slice(res.Units, func(i, j int) bool { return res.Units[i].Name < res.Units[j].Name })
-	fmt.Printf("units=%d obligations=%d proved=%d engine-errors=%d gen=%.1fs wall=%.1fs\n", len(units), res.Total, res.Proved, nerr, tgen.Seconds(), time.Since(t0).Seconds())
+	fmt.Printf("units=%d obligations=%d proved=%d probes=%d vacuous=%d engine-errors=%d gen=%.1fs wall=%.1fs\n", len(units), res.Total, res.Proved, res.Probes, res.Vacuous, nerr, tgen.Seconds(), time.Since(t0).Seconds())
 	if *jsonOut != "" {
 		b, _ := json.MarshalIndent(res, "", " ")
 		dieIf(os.WriteFile(*jsonOut, b, 0o644))
 	}
-	if nerr > 0 {
+	if nerr > 0 || res.Vacuous > 0 {
 		os.Exit(2)
 	}
 	if res.Proved != res.Total {
@@ -121,6 +135,8 @@ type summary struct {
 	Units  []unitResult `json:"units"`
 	Total  int          `json:"total"`
 	Proved int          `json:"proved"`
+	Probes int          `json:"probes"`
+	Vacuous int         `json:"vacuous"`
 	WallS  float64      `json:"wall_s"`
 	GenS   float64      `json:"gen_s"`
 }
